@@ -1,6 +1,26 @@
 """Which properties are claimed, with which rules (kept in step with sa/rules)."""
 
+IEF = ('internal-error freedom (undefined names, locals read before assignment on a feasible if/else path, calls that '
+       'cannot bind, iteration over a possibly-None result) of every function reachable from the entry points')
+
 CLAIMS = {
+    'C05': {'text': IEF + ' assertDataFramesEqual/assertDataFrameCorrect/assertOnDiskDataFrameCorrect/check_dataframe.',
+            'technique': 'call-graph reachability + definite-assignment walk + arity check (AST)'},
+    'C08': {'text': IEF + ' discover_db_table/verify_db_table.',
+            'technique': 'call-graph reachability + definite-assignment walk + arity check (AST)'},
+    'C10': {'text': 'every effect on a reference path is under the true arm of _should_regenerate(own kind) on every call chain '
+                    '(GUARD, KINDFWD); normal-mode effects write only under tmp_dir (NOWRITE); only set_regeneration stores into the '
+                    'table and only command-line parsers call it (WHOSETS); flag spellings and their wiring (FLAGS); writer/reader '
+                    'mode agreement per kind (RW); ' + IEF + ' (the assertion methods).',
+            'technique': 'interprocedural effect summaries with path provenance and guard chains; guard-chain queries; registries'},
+    'C11': {'text': IEF + ' gentest()/gentest_wrapper().',
+            'technique': 'call-graph reachability + definite-assignment walk + arity check (AST)'},
+    'C15': {'text': 'artefacts are written only under tmp_dir with relative-safe names (TMPDIR), only under a difference predicate or '
+                    'a missing-file handler (ONLYFAIL); actual-side and expected-side bookkeeping are exact mirrors (MIRROR); '
+                    'suggested commands name caller paths or files written (CMDFILES).',
+            'technique': 'effect summaries with provenance + def-use closure of guards + near-mirror clone comparison'},
+    'C17': {'text': IEF + ' the three Pandas front-end methods (discover/verify/detect).',
+            'technique': 'call-graph reachability + definite-assignment walk + arity check (AST)'},
     'C01': {
         'text': 'internal-error freedom (undefined names, unbound locals, unbindable calls, None iteration) of every '
                 'function reachable from discover_df/verify_df/detect_df/to_json/load.',
